@@ -103,6 +103,16 @@ pub struct World {
     pub flush_calls: usize,
     /// Set when the connection wrote an absurd amount (a runaway write loop); the transport fails from then on.
     pub flooded: bool,
+    /// C14: shutdown is requested from inside the n-th transport read call (as another thread would while this one
+    /// is in the middle of a poll); the closure does the request, the fields for the oracles are set by the transport.
+    pub eval_idle_after_poll: bool,
+    /// C14: the client and the read side are frozen (nothing is sent, delivered, closed or made readable any more):
+    /// set when shutdown is requested while the connection is idle - an idle connection has to stop because of the
+    /// request, not because the client happens to do something afterwards.
+    pub peer_frozen: bool,
+    pub freeze_if_idle: bool,
+    pub shutdown_in_read_call: Option<usize>,
+    pub mid_poll_shutdown: Option<Box<dyn FnOnce() + Send>>,
     /// Transport calls made during the current poll of a task; a poll that keeps calling the transport without
     /// ever returning is a spin (the executor's step cap cannot see it), reported through `spun`.
     pub calls_this_poll: u64,
@@ -164,7 +174,7 @@ impl World {
             cx, knobs, wire, segs, next_seg: 0, sent: 0, avail: 0, read_pos: 0, peer_closed: false, close_when_done: true,
             read_waker: None, read_blocked: false, rfault: RFault::None, read_calls: 0, reads_after_mark: 0, read_dropped: false, eof_reported: false,
             log: Vec::new(), decoded: Vec::new(), decoded_upto: 0, decoded_at_read: Vec::new(), write_waker: None, write_blocked: false,
-            wfault: WFault::None, write_calls: 0, flush_calls: 0, flooded: false, calls_this_poll: 0, spun: false, write_failed_at: None, writes_after_failure: 0, write_dropped: false, lock_held_pending: false,
+            wfault: WFault::None, write_calls: 0, flush_calls: 0, flooded: false, eval_idle_after_poll: false, peer_frozen: false, freeze_if_idle: false, shutdown_in_read_call: None, mid_poll_shutdown: None, calls_this_poll: 0, spun: false, write_failed_at: None, writes_after_failure: 0, write_dropped: false, lock_held_pending: false,
             end_requests: 0, replies_seen: 0, handler_log: Vec::new(), shutdown_requested_at_step: None, step: 0,
             current_poll_started_after_shutdown: false,
             owed_triggers: Vec::new(), rec_bounds: Vec::new(), suspend_violation: None, empty_buf_reads: 0, force_propagate: false, read_everything: false, idle_at_shutdown: false, read_err_kind: io::ErrorKind::ConnectionReset, read_error_fired: false, reads_after_read_error: 0, retry_failed_writes: false,
@@ -226,7 +236,9 @@ impl AsyncRead for SimRead {
         w.note_call();
         let call = w.read_calls;
         w.read_calls += 1;
-        w.reads_after_mark += 1;
+        // reads "after shutdown was requested": only those of scheduling steps that began after the request (a request
+        // made while a step is in progress - from another thread - cannot stop that step from finishing its reads)
+        if w.shutdown_requested_at_step.is_none() || w.current_poll_started_after_shutdown { w.reads_after_mark += 1; }
         if w.read_error_fired {
             w.reads_after_read_error += 1;
         }
@@ -244,6 +256,21 @@ impl AsyncRead for SimRead {
             w.empty_buf_reads += 1;
             w.cx.ev("read_empty_buf", 0, 0);
             return Poll::Ready(Ok(0));
+        }
+        if w.shutdown_in_read_call == Some(call) {
+            if let Some(f) = w.mid_poll_shutdown.take() {
+                let step = w.step;
+                w.shutdown_requested_at_step = Some(step);
+                // whether the connection counts as idle is decided when this step ends: the step may still complete a
+                // preamble and start its handler (it began before the request)
+                w.idle_at_shutdown = false;
+                w.eval_idle_after_poll = true;
+                w.reads_after_mark = 0;
+                w.cx.fault("shutdown_requested");
+                w.cx.probe("shutdown_inside_a_transport_read");
+                w.cx.ev("shutdown_mid_poll", call as u64, 0);
+                f();
+            }
         }
         let limit = match w.rfault { RFault::EofAt(o) => o.min(w.avail), _ => w.avail };
         let have = limit - w.read_pos.min(limit);
@@ -394,7 +421,8 @@ impl AsyncWrite for SimWrite {
         if w.wfault == WFault::FlushErrAtCall(call) {
             w.cx.fault("flush_error");
             w.cx.ev("flush_err", call as u64, 0);
-            w.write_failed_at = Some(w.log.len());
+            // (not a failed *write*: no record is torn and no lock is kept, sibling writers may go on until the handler
+            // has propagated the error; termination and well-formedness are still checked)
             return Poll::Ready(Err(io::Error::new(io::ErrorKind::BrokenPipe, "injected flush error")));
         }
         if w.write_blocked {
@@ -513,6 +541,14 @@ impl Exec {
             w.calls_this_poll = 0;
         }
         let r = std::panic::catch_unwind(std::panic::AssertUnwindSafe(|| fut.as_mut().poll(&mut cx)));
+        {
+            let mut w = lock(&self.world);
+            if w.eval_idle_after_poll {
+                w.eval_idle_after_poll = false;
+                w.idle_at_shutdown = w.handler_log.iter().all(|h| h.finished) && w.handler_log.len() <= w.end_requests;
+                if w.idle_at_shutdown && w.freeze_if_idle { w.peer_frozen = true; w.cx.probe("client_frozen_at_shutdown"); }
+            }
+        }
         match r {
             Ok(Poll::Ready(())) => { t.fut = None; }
             Ok(Poll::Pending) => {}
@@ -528,6 +564,10 @@ impl Exec {
     pub fn enabled_env(&self) -> Vec<Ev> {
         let w = lock(&self.world);
         let mut v = Vec::new();
+        if w.peer_frozen {
+            if w.write_blocked { v.push(Ev::WriteUnblock); }
+            return v;
+        }
         if w.avail < w.sent { v.push(Ev::Deliver); }
         if w.gate_open() && !w.peer_closed { v.push(Ev::PeerSend); }
         else if w.next_seg < w.segs.len() && matches!(w.segs[w.next_seg].gate, Gate::AfterReplies(_)) { drop(w); let mut w = lock(&self.world); w.cx.fault("peer_withhold"); return self.enabled_env_rest(v, &w); }
@@ -680,6 +720,7 @@ pub struct Join<'a, T> {
     /// try_join-like behaviour: when a child finishes with a result for which this returns true, the remaining
     /// children are dropped where they stand (their results are missing from the output).
     pub fail_fast: Option<fn(&T) -> bool>,
+    stopping: bool,
 }
 
 impl<'a, T> Join<'a, T> {
@@ -691,6 +732,7 @@ impl<'a, T> Join<'a, T> {
             world,
             spurious_done: false,
             fail_fast: None,
+            stopping: false,
         }
     }
 }
@@ -741,13 +783,15 @@ impl<T: Unpin> Future for Join<'_, T> {
                 let stop = this.fail_fast.map_or(false, |p| p(&v));
                 this.results[i] = Some(v);
                 *f = None;
-                if stop {
-                    let dropped = this.children.iter().filter(|(f, _)| f.is_some()).count();
-                    if dropped > 0 { lock(&this.world).cx.probe("sibling_subtasks_dropped_on_error"); }
-                    for (f, _) in this.children.iter_mut() { *f = None; }
-                    break;
-                }
+                if stop { this.stopping = true; }
             }
+        }
+        if this.stopping {
+            // the error is propagated at the end of this round: siblings that were woken in the meantime (e.g. by a
+            // lock the failed writer let go of) have had their turn above; the rest are dropped where they stand
+            let dropped = this.children.iter().filter(|(f, _)| f.is_some()).count();
+            if dropped > 0 { lock(&this.world).cx.probe("sibling_subtasks_dropped_on_error"); }
+            for (f, _) in this.children.iter_mut() { *f = None; }
         }
         if this.children.iter().all(|(f, _)| f.is_none()) {
             Poll::Ready(this.results.iter_mut().filter_map(Option::take).collect())
